@@ -17,6 +17,14 @@
    Finish                       body returns on all paths -> phase "emit"
    Emit                         prints <<"HIST", json>>, phase "done"
 
+ Truth mode (Special = "truth"): i64/u64 parameters, locals, `-a` and bare integer
+ literals used directly as `if` / `else if` conditions and and/or operands, with
+ 64-bit boundary values whose low 32 bits are zero (2^32, 5*2^32, 2^40, -2^63).
+ Nest mode (Special = "nest"): a local declared inside an if block, optionally
+ another in a nested if and in the else block, then locals declared in the function
+ body AFTER the chain, every combination of the WASM carrier types i32 (u8), i64,
+ f64 (declared only); every local is read back on some argument.
+
  Chain mode (ChainK # {}): instead of building token by token, the initial
  states are ALL if-chains `x T := b; if c1 {B1} else if c2 {B2} ... [else {Bn}];
  tail` with k \in ChainK `else if` clauses, every block either `return T(10+i)`
@@ -42,7 +50,8 @@ CONSTANTS
     UseWide,    \* BOOLEAN: i64 parameter under narrowing casts, casts to i64/u64 at a return
     MaxNodes, MaxStack, MaxLocals, MaxParams, MaxFrames,
     MinNodes,   \* a top-level `return` needs at least this many tokens before it (longer sampled bodies)
-    ChainK      \* {} = token-by-token mode; else the numbers of `else if` clauses of the chain mode
+    ChainK,     \* {} = token-by-token mode; else the numbers of `else if` clauses of the chain mode
+    Special     \* "" | "truth" (64-bit values as truth values) | "nest" (locals in nested blocks)
 
 VARIABLES stk, frames, body, locals, used, retT, nodes, phase
 vars == <<stk, frames, body, locals, used, retT, nodes, phase>>
@@ -53,11 +62,11 @@ AllParams == << [n |-> "a8", t |-> "i8"], [n |-> "b8", t |-> "i8"],
                 [n |-> "ua16", t |-> "u16"], [n |-> "ub16", t |-> "u16"],
                 [n |-> "a32", t |-> "i32"], [n |-> "b32", t |-> "i32"],
                 [n |-> "ua32", t |-> "u32"], [n |-> "ub32", t |-> "u32"],
-                [n |-> "a64", t |-> "i64"] >>
+                [n |-> "a64", t |-> "i64"], [n |-> "b64", t |-> "i64"], [n |-> "ua64", t |-> "u64"] >>
 LocalNames == <<"x", "y", "z">>
 
 ParamLeaves == {[k |-> "par", t |-> AllParams[i].t, n |-> AllParams[i].n] : i \in
-                    {j \in 1..Len(AllParams) : AllParams[j].t \in Types \/ (UseWide /\ AllParams[j].t = "i64")}}
+                    {j \in 1..Len(AllParams) : AllParams[j].t \in Types \/ (UseWide /\ AllParams[j].n = "a64")}}
 LitLeaves == {[k |-> "lit", t |-> t, v |-> v] : t \in Types, v \in LitVals} \cup
              (IF LitMax THEN {[k |-> "lit", t |-> t, v |-> Max(t)] : t \in Types} ELSE {})
 LocalLeaves == {[k |-> "loc", t |-> locals[i].t, n |-> locals[i].n] : i \in 1..Len(locals)}
@@ -192,6 +201,13 @@ Ps == LET idx == {i \in 1..Len(AllParams) : AllParams[i].n \in used}
       IN Build(1)
 Prog == [ret |-> retT, ps |-> Ps, body |-> body]
 
+\* 64-bit boundary values as [hi, lo] halves: small values for the narrowing casts, and values that are
+\* non-zero with all-zero low 32 bits (2^32, 5*2^32, 2^40, -2^63 / 2^63, -2^32) or a zero high half with the
+\* 32-bit sign bit set (2^31) for truthiness
+W(h, l) == [hi |-> h, lo |-> l]
+WI64 == << W(0, 0), W(0, 1), W(-1, -1), W(0, 127), W(0, 128), W(-1, -129), W(0, 256), W(0, 65536), W(-1, -32769),
+           W(0, MinI32), W(1, 0), W(5, 0), W(256, 0), W(MinI32, 0), W(-1, 0), W(1, 1) >>
+WU64 == << W(0, 0), W(0, 1), W(0, 255), W(0, 256), W(0, MinI32), W(1, 0), W(5, 0), W(256, 0), W(MinI32, 0), W(-1, -1) >>
 \* boundary argument values: all of them for one parameter, fewer when there are more
 BFull(t) == CASE t = "i8"  -> <<-128, -127, -64, -2, -1, 0, 1, 2, 11, 12, 63, 64, 126, 127>>
               [] t = "u8"  -> <<0, 1, 2, 15, 16, 17, 127, 128, 129, 254, 255>>
@@ -200,22 +216,24 @@ BFull(t) == CASE t = "i8"  -> <<-128, -127, -64, -2, -1, 0, 1, 2, 11, 12, 63, 64
               [] t = "i32" -> <<MinI32, MinI32 + 1, -65537, -65536, -32769, -32768, -129, -128, -1, 0, 1, 2, 127, 128,
                                 255, 256, 32767, 32768, 46340, 46341, 65535, 65536, MaxI32 - 1, MaxI32>>
               [] t = "u32" -> <<0, 1, 2, 255, 256, 65535, 65536, 46340, 46341, MaxI32 - 1, MaxI32>>
-              [] t = "i64" -> <<MinI32, -65537, -32769, -32768, -129, -128, -1, 0, 1, 127, 128, 255, 256,
-                                32767, 32768, 65535, 65536, MaxI32>>
+              [] t = "i64" -> WI64
+              [] t = "u64" -> WU64
 BMid(t) ==  CASE t = "i8"  -> <<-128, -127, -1, 0, 1, 2, 11, 126, 127>>
               [] t = "u8"  -> <<0, 1, 2, 16, 127, 128, 254, 255>>
               [] t = "i16" -> <<-32768, -32767, -129, -1, 0, 1, 2, 128, 182, 256, 32767>>
               [] t = "u16" -> <<0, 1, 2, 128, 256, 257, 32768, 65534, 65535>>
               [] t = "i32" -> <<MinI32, MinI32 + 1, -32769, -129, -1, 0, 1, 2, 256, 46341, 65536, MaxI32>>
               [] t = "u32" -> <<0, 1, 2, 256, 46341, 65536, MaxI32 - 1, MaxI32>>
-              [] t = "i64" -> <<MinI32, -32769, -129, -1, 0, 1, 128, 256, 32768, 65536, MaxI32>>
+              [] t = "i64" -> WI64
+              [] t = "u64" -> WU64
 BSmall(t) == CASE t = "i8"  -> <<-128, -1, 0, 2, 127>>
                [] t = "u8"  -> <<0, 1, 2, 128, 255>>
                [] t = "i16" -> <<-32768, -1, 0, 2, 32767>>
                [] t = "u16" -> <<0, 1, 2, 32768, 65535>>
                [] t = "i32" -> <<MinI32, -1, 0, 2, MaxI32>>
                [] t = "u32" -> <<0, 1, 2, 65536, MaxI32>>
-               [] t = "i64" -> <<MinI32, -129, 0, 256, MaxI32>>
+               [] t = "i64" -> <<W(0, 0), W(0, 256), W(-1, -129), W(1, 0), W(MinI32, 0)>>
+               [] t = "u64" -> <<W(0, 0), W(0, 1), W(1, 0), W(MinI32, 0), W(-1, -1)>>
 B(t, k) == IF k <= 1 THEN BFull(t) ELSE IF k = 2 THEN BMid(t) ELSE BSmall(t)
 
 ArgsFor(ps) ==
@@ -284,7 +302,78 @@ ChainInit ==
         /\ locals = <<[n |-> "x", t |-> T]>> /\ used = {"ua8", ChainParName(T)} /\ retT = T
         /\ stk = <<>> /\ frames = <<>> /\ nodes = 0 /\ phase = "emit"
 
-Init == IF ChainK # {} THEN ChainInit
+\* ---- truth mode: a 64-bit integer used directly as a truth value -----------------------------
+U8L(v) == [k |-> "lit", t |-> "u8", v |-> v]
+RetC(v) == [k |-> "ret", e |-> U8L(v)]
+If1(c, b) == [k |-> "if", arms |-> <<[c |-> c, b |-> b]>>, els |-> <<>>, hasElse |-> FALSE]
+WPar(n, t) == [k |-> "par", t |-> t, n |-> n]
+WLoc(n, t) == [k |-> "loc", t |-> t, n |-> n]
+UA8 == [k |-> "par", t |-> "u8", n |-> "ua8"]
+BareLits == << [k |-> "blit", t |-> "i64", v |-> W(0, 0), txt |-> "0"], [k |-> "blit", t |-> "i64", v |-> W(0, 1), txt |-> "1"],
+               [k |-> "blit", t |-> "i64", v |-> W(1, 0), txt |-> "4294967296"],
+               [k |-> "blit", t |-> "i64", v |-> W(5, 0), txt |-> "21474836480"],
+               [k |-> "blit", t |-> "i64", v |-> W(256, 0), txt |-> "1099511627776"],
+               [k |-> "blit", t |-> "i64", v |-> W(0, MinI32), txt |-> "2147483648"] >>
+TruthBodies ==
+    LET pw(t) == IF t = "i64" THEN WPar("a64", "i64") ELSE WPar("ua64", "u64")
+        bl == {BareLits[i] : i \in 1..Len(BareLits)}
+    IN  \* (body, used parameter names)
+        {[b |-> <<If1(pw(t), <<RetC(1)>>), RetC(2)>>, u |-> {pw(t).n}] : t \in Wide}
+   \cup {[b |-> <<[k |-> "if", arms |-> <<[c |-> UA8, b |-> <<RetC(1)>>], [c |-> pw(t), b |-> <<RetC(3)>>]>>,
+                    els |-> <<>>, hasElse |-> FALSE], RetC(2)>>, u |-> {"ua8", pw(t).n}] : t \in Wide}
+   \cup {[b |-> <<[k |-> "if", arms |-> <<[c |-> UA8, b |-> <<RetC(1)>>], [c |-> pw(t), b |-> <<RetC(3)>>]>>,
+                    els |-> <<RetC(4)>>, hasElse |-> TRUE]>>, u |-> {"ua8", pw(t).n}] : t \in Wide}
+   \cup {[b |-> <<[k |-> "let", n |-> "x", t |-> t, typed |-> ty, e |-> pw(t)], If1(WLoc("x", t), <<RetC(1)>>), RetC(2)>>,
+          u |-> {pw(t).n}] : t \in Wide, ty \in BOOLEAN}
+   \cup {[b |-> <<If1([k |-> "neg", t |-> "i64", e |-> pw("i64")], <<RetC(1)>>), RetC(2)>>, u |-> {"a64"}]}
+   \cup {[b |-> <<[k |-> "let", n |-> "x", t |-> "i64", typed |-> TRUE, e |-> [k |-> "neg", t |-> "i64", e |-> pw("i64")]],
+                  If1(UA8, <<If1(WLoc("x", "i64"), <<RetC(1)>>)>>), RetC(2)>>, u |-> {"ua8", "a64"}]}
+   \cup {[b |-> <<If1(pw("i64"), <<If1(WPar("b64", "i64"), <<RetC(1)>>), RetC(3)>>), RetC(2)>>, u |-> {"a64", "b64"}]}
+   \cup {[b |-> <<[k |-> "ret", e |-> [k |-> "bin", op |-> op, t |-> "u8", l |-> l, r |-> r]]>>, u |-> {}] :
+              op \in LogOps, l \in bl, r \in bl}
+   \cup {[b |-> <<If1(l, <<RetC(1)>>), RetC(2)>>, u |-> {}] : l \in bl}
+   \cup {[b |-> <<[k |-> "let", n |-> "x", t |-> "i64", typed |-> FALSE, e |-> l], If1(WLoc("x", "i64"), <<RetC(1)>>), RetC(2)>>,
+          u |-> {}] : l \in bl}
+TruthInit == \E p \in TruthBodies :
+                /\ body = p.b /\ used = p.u /\ retT = "u8" /\ locals = <<>>
+                /\ stk = <<>> /\ frames = <<>> /\ nodes = 0 /\ phase = "emit"
+
+\* ---- nest mode: locals declared inside nested blocks, then later outer locals ------------------
+\* carrier types: u8 -> i32, i64 -> i64, f64 -> f64 (a float local is only declared, never read)
+NT == {"u8", "i64", "f64"}
+NInit(t, id) == CASE t = "u8" -> U8L(10 + id)
+                  [] t = "i64" -> [k |-> "lit", t |-> "i64", v |-> W(0, 10 + id), txt |-> ToString(10 + id)]
+                  [] t = "f64" -> [k |-> "flit", t |-> "f64", txt |-> "1.5"]
+NLet(n, t, id) == [k |-> "let", n |-> n, t |-> t, typed |-> TRUE, e |-> NInit(t, id)]
+\* a u8 expression reading local n of type t (distinct value per local)
+NUse(n, t, id) == CASE t = "u8" -> [k |-> "loc", t |-> "u8", n |-> n]
+                    [] t = "i64" -> [k |-> "bin", op |-> "==", t |-> "u8",
+                                     l |-> [k |-> "cast", t |-> "i8", e |-> WLoc(n, "i64")], r |-> [k |-> "lit", t |-> "i8", v |-> 10 + id]]
+                    [] t = "f64" -> U8L(40 + id)
+Opt(S) == S \cup {"none"}
+NCond(v) == [k |-> "bin", op |-> "<", t |-> "u8", l |-> UA8, r |-> U8L(v)]
+NestBody(tp, t1, t2, t3, t4, t5) ==
+    (IF tp = "none" THEN <<>> ELSE <<NLet("lp", tp, 0)>>) \o
+    << [k |-> "if",
+        arms |-> <<[c |-> NCond(2),
+                    b |-> <<NLet("lm", t1, 1)>> \o
+                          (IF t2 = "none" THEN <<>>
+                           ELSE <<If1(NCond(1), <<NLet("ln", t2, 2), [k |-> "ret", e |-> NUse("ln", t2, 2)]>>)>>) \o
+                          <<[k |-> "ret", e |-> NUse("lm", t1, 1)]>>]>>,
+        els |-> IF t3 = "none" THEN <<>>
+                ELSE <<NLet("lk", t3, 3), If1(NCond(127), <<[k |-> "ret", e |-> NUse("lk", t3, 3)]>>)>>,
+        hasElse |-> t3 # "none"] >> \o
+    <<NLet("ly", t4, 4)>> \o
+    (IF t5 = "none" THEN <<>> ELSE <<NLet("lz", t5, 5)>>) \o
+    (IF tp = "none" THEN <<>> ELSE <<If1(NCond(128), <<[k |-> "ret", e |-> NUse("lp", tp, 0)]>>)>>) \o
+    (IF t5 = "none" THEN <<>> ELSE <<If1(NCond(129), <<[k |-> "ret", e |-> NUse("lz", t5, 5)]>>)>>) \o
+    <<[k |-> "ret", e |-> NUse("ly", t4, 4)]>>
+NestInit == \E tp \in Opt(NT), t1 \in NT, t2 \in Opt(NT), t3 \in Opt(NT), t4 \in NT, t5 \in Opt(NT) :
+                /\ body = NestBody(tp, t1, t2, t3, t4, t5) /\ used = {"ua8"} /\ retT = "u8" /\ locals = <<>>
+                /\ stk = <<>> /\ frames = <<>> /\ nodes = 0 /\ phase = "emit"
+
+Init == IF Special = "truth" THEN TruthInit ELSE IF Special = "nest" THEN NestInit ELSE
+        IF ChainK # {} THEN ChainInit
         ELSE /\ stk = <<>> /\ frames = <<>> /\ body = <<>> /\ locals = <<>> /\ used = {}
              /\ retT = "none" /\ nodes = 0 /\ phase = "build"
 Next == PushLeaf \/ NegA \/ NotA \/ CastA \/ BinA \/ SRet \/ SLet \/ SSet \/ SCSet
